@@ -6,7 +6,7 @@ All constants are prefixed inf_ (the row-codec engine emits its own separators).
 import builtins
 import typing
 
-from gen_tables import Refuse, coq_char, coq_list, coq_str
+from gen_tables import Refuse, coq_bool, coq_char, coq_list, coq_str
 
 # tags of the small type universe of coq/theories/Row/InferTy.v
 TAGS = [str, int, float, bool, list, typing.List]  # 0..5
@@ -31,6 +31,47 @@ def tables_infer(out, notes):
             raise Refuse(f"RowParser.{attr} is not a one-character string: {v!r}")
         seps[coq_name] = v
         out.append(f"Definition {coq_name} : char := {coq_char(v)}.")
+
+    # ---- where model_from_headers_rec looks for the header separator: in the whole header,
+    # annotations included (the tree with the defect default-contains-dot), or in the field name
+    # only (get_field_name(header): what precedes the first annotation/default separator).
+    # Decided by behaviour on probe headers; anything that is neither of the two is refused.
+    hs_, as_, ds_ = seps["inf_hdr_sep"], seps["inf_ann_sep"], seps["inf_dflt_sep"]
+
+    def shape(headers):
+        """field names of the inferred class, two levels deep"""
+        try:
+            m, _ = mi.model_from_headers_rec("probe", headers)
+        except BaseException as e:
+            return ("raised", type(e).__name__)
+        out_ = []
+        for k, f in getattr(m, "__fields__", {}).items():
+            sub = getattr(f.type_, "__fields__", None)
+            out_.append((k, sorted(sub.keys()) if sub is not None else None))
+        return out_
+
+    def expect(header, by_name):
+        """what the two candidate behaviours give on a single header (two levels)"""
+        def nested(h):
+            return hs_ in (h.split(as_)[0].split(ds_)[0] if by_name else h)
+        if not nested(header):
+            return [(header.split(as_)[0].split(ds_)[0].strip(), None)]
+        field, sub = header.split(hs_, 1)
+        if nested(sub):
+            return [(field, [sub.split(hs_, 1)[0]])]
+        return [(field, [sub.split(as_)[0].split(ds_)[0].strip()])]
+
+    probes = [f"x{as_}float{ds_}1{hs_}5e3", f"x{ds_}a{hs_}b", f"x {as_} str {ds_} a{hs_}b ", f"a{hs_}b{ds_}1{hs_}5e3",
+              f"a{hs_}b{as_}int{ds_}3", f"x{as_}int{ds_}3", f"a{hs_}c", "x"]
+    got = [shape([p]) for p in probes]
+    verdicts = [b for b in (False, True) if got == [expect(p, b) for p in probes]]
+    if len(verdicts) != 1:
+        raise Refuse("model_from_headers_rec splits headers neither on the whole header nor on the field name: "
+                     + repr(list(zip(probes, got))))
+    out.append("(* model_from_headers_rec looks for the header separator in get_field_name(header) (true)")
+    out.append("   or in the whole header, annotations included (false): probed on 8 headers *)")
+    out.append(f"Definition inf_nested_by_field_name : bool := {coq_bool(verdicts[0])}.")
+    notes.append(f"nested_by_field_name: PROBED model_from_headers_rec on {len(probes)} headers -> {verdicts[0]}")
 
     # ---- outer type names: tabulate type_from_string over every name it can sensibly see
     cands = [""] + sorted(set(dir(builtins)) | set(vars(mi)) | {"str", "int", "float", "bool", "list", "List"})
